@@ -45,6 +45,20 @@
 //! * `bloom_for_noteq` — pruning_predicate.rs: a `NotIn` literal guarantee is combined like `In` (bloom
 //!   filter consulted for `<>` / NOT IN) -> VIOLATION after 92 cases.
 //!
+//! Seeded defect /verif/seeded/C24-a (`PreparedAccessPlan::reorder_by_statistics` uses the sort permutation
+//! — positions among the surviving row groups — as absolute row-group indexes) was first MISSED at quick
+//! tier: it needs ORDER BY on a file column + a file with >= 3 row groups of which a leading/middle one is
+//! pruned and >= 2 survive + no page-index RowSelection. The old generator rarely produced several row
+//! groups per file (row-group size uniform in 8..200 against <= 120 rows) and chose predicate / sort columns
+//! independently of the data layout, so statistics pruning of a non-suffix row group under a pushed-down
+//! sort had a probability of roughly 0.1 % per case (the region is not hidden by the sparse-page exclusion).
+//! General strengthening, no special-casing: row groups mostly 8..40 rows, files mostly in the upper half
+//! of the size range, predicate and ORDER BY columns biased (2 in 5) to the column the files are sorted /
+//! clustered on, ORDER BY in half of the queries, quick budget 2000. Effect per quick run:
+//! `m:row_groups_pruned_statistics` 57 -> ~300, `m:row_groups_pruned_dynamic_filter` 3 -> ~30,
+//! `plan:sort_order_for_reorder` ~150; `mutrun seeded/C24-a/patch.diff -- ./check C24 quick` now reports a
+//! VIOLATION after 69 cases.
+//!
 //! Genuine finding (open, known_findings.json `pushdown+mask+predicate-cache+small-batch`, case
 //! regressions/C24/c24/sparse-page-mask-topk.json; two more shrunk cases next to it): with
 //! `pushdown_filters=true`, a row filter of >= 2 conjuncts (static ones, or a static one plus the TopK
@@ -866,7 +880,7 @@ impl Property for C24 {
             .boxed()
     }
     fn budget(&self, tier: Tier) -> Budget {
-        Budget::new(tier.pick(2_000, 30_000), tier.pick(8, 16)).min_nontrivial(tier.pick(300, 5000)).case_timeout(90)
+        Budget::new(tier.pick(2_000, 30_000), tier.pick(8, 16)).min_nontrivial(tier.pick(300, 5000)).case_timeout(300)
     }
     fn rule(&self) -> String {
         "1-3 Parquet files (rowid = position in file) written under generated WriterProperties, sorted/clustered/random NULL-heavy data; \
